@@ -126,6 +126,14 @@ func UntarDirectory(r io.Reader, destDir string) error {
 			return err
 		}
 
+		// The checks above are lexical. Refuse to go through a symbolic link that an
+		// earlier entry (or a previous extraction) left below destDir: the kernel would
+		// follow it and the entry could land outside the destination. A directory entry
+		// must not be a symbolic link itself either.
+		if err := checkNoSymlinkComponents(destDir, targetPath, header.Typeflag == tar.TypeDir); err != nil {
+			return err
+		}
+
 		switch header.Typeflag {
 		case tar.TypeDir:
 			// Create directory
@@ -137,6 +145,11 @@ func UntarDirectory(r io.Reader, destDir string) error {
 			// Create parent directories if needed
 			if err := os.MkdirAll(filepath.Dir(targetPath), 0755); err != nil {
 				return fmt.Errorf("failed to create parent directory: %w", err)
+			}
+
+			// Never write through an existing symlink at the final component
+			if fi, err := os.Lstat(targetPath); err == nil && fi.Mode()&os.ModeSymlink != 0 {
+				os.Remove(targetPath)
 			}
 
 			// Create file
@@ -153,6 +166,11 @@ func UntarDirectory(r io.Reader, destDir string) error {
 			file.Close()
 
 		case tar.TypeSymlink:
+			// A link entry must not replace the destination directory itself
+			if targetPath == destDir {
+				return fmt.Errorf("link entry would replace the destination directory: %s", header.Name)
+			}
+
 			// Validate symlink target
 			if err := validateSymlink(destDir, targetPath, header.Linkname); err != nil {
 				return err
@@ -173,8 +191,15 @@ func UntarDirectory(r io.Reader, destDir string) error {
 
 		case tar.TypeLink:
 			// Hard links - validate target is within destDir
+			if targetPath == destDir {
+				return fmt.Errorf("link entry would replace the destination directory: %s", header.Name)
+			}
 			linkTarget, err := sanitizeTarPath(destDir, header.Linkname)
 			if err != nil {
+				return err
+			}
+			// The link source must be a file physically inside destDir as well
+			if err := checkNoSymlinkComponents(destDir, linkTarget, true); err != nil {
 				return err
 			}
 
@@ -234,6 +259,39 @@ func sanitizeTarPath(destDir, name string) (string, error) {
 	}
 
 	return targetPath, nil
+}
+
+// checkNoSymlinkComponents verifies that no existing path component between destDir
+// (exclusive) and path is a symbolic link. The final component is included in the check
+// only when includeLast is set. Components that do not exist yet are fine: they will be
+// created as real directories. path must be destDir or lexically below it.
+func checkNoSymlinkComponents(destDir, path string, includeLast bool) error {
+	rel, err := filepath.Rel(destDir, path)
+	if err != nil {
+		return fmt.Errorf("failed to resolve path: %w", err)
+	}
+	if rel == "." {
+		return nil
+	}
+	parts := strings.Split(rel, string(filepath.Separator))
+	cur := destDir
+	for i, part := range parts {
+		if i == len(parts)-1 && !includeLast {
+			break
+		}
+		cur = filepath.Join(cur, part)
+		fi, err := os.Lstat(cur)
+		if err != nil {
+			if os.IsNotExist(err) {
+				return nil
+			}
+			return fmt.Errorf("failed to inspect %s: %w", cur, err)
+		}
+		if fi.Mode()&os.ModeSymlink != 0 {
+			return fmt.Errorf("path traverses a symbolic link: %s", cur)
+		}
+	}
+	return nil
 }
 
 // validateSymlink checks if a symlink target is safe (doesn't escape the destination).
